@@ -30,6 +30,11 @@ POOLS = {
         "H": ({"H": 1}, 0), "#H": ({"H": 1}, 0), "CO": ({"C": 1, "O": 1}, 0), "#CO": ({"C": 1, "O": 1}, 0), "H2": ({"H": 2}, 0), "#H2": ({"H": 2}, 0),
         "#HCO": ({"H": 1, "C": 1, "O": 1}, 0), "HCO": ({"H": 1, "C": 1, "O": 1}, 0), "C": ({"C": 1}, 0), "O": ({"O": 1}, 0), "#O": ({"O": 1}, 0), "#OH": ({"O": 1, "H": 1}, 0),
     },
+    # dust grains in three charge states (electron capture, ion recombination on grains)
+    "grain": {
+        "GRAIN0": ({"GRAIN": 1}, 0), "GRAIN-": ({"GRAIN": 1}, -1), "GRAIN+": ({"GRAIN": 1}, 1), "e-": ({}, -1), "H": ({"H": 1}, 0), "H+": ({"H": 1}, 1),
+        "C": ({"C": 1}, 0), "C+": ({"C": 1}, 1), "H2": ({"H": 2}, 0), "CH": ({"C": 1, "H": 1}, 0), "CH+": ({"C": 1, "H": 1}, 1),
+    },
     # formulas that mention an element symbol in several places (composition computed by hand)
     "repeat": {
         "H": ({"H": 1}, 0), "C": ({"C": 1}, 0), "O": ({"O": 1}, 0), "N": ({"N": 1}, 0), "H2": ({"H": 2}, 0), "OH": ({"O": 1, "H": 1}, 0),
